@@ -21,7 +21,7 @@ import time
 HERE = os.path.dirname(os.path.abspath(__file__))
 VERIF = os.path.dirname(HERE)
 REPO = "/repo"
-SCRATCH = "/tmp/wtpriv/selftest"
+SCRATCH = "/tmp/wtpriv/selftest-%d" % os.getpid()
 sys.path.insert(0, HERE)
 import mutants  # noqa
 mutants.load_seeded()
